@@ -484,7 +484,11 @@ func componentCase(c *Case) (*WF, string) {
 		paramConsumer(w, "use", outs, ports[:k])
 	case "selector":
 		k := 1 + t.Choose(simrt.StGen, 4, 0)
-		n := itemCounts[t.Choose(simrt.StGen, 6, 0)]
+		// (also streams longer than any internal buffering of 16 sets)
+		n := append(append([]int{}, itemCounts...), 20, 40)[t.Choose(simrt.StGen, 8, 0)]
+		if k == 4 && n > 20 {
+			n = 20
+		}
 		s := srcNode(w, "src0", n, "")
 		sel := Node{Name: "sel", Kind: KSelector}
 		var ups []Edge
